@@ -358,3 +358,18 @@ mod tests {
         assert_eq!(l_last_x, expected_l_last_x);
     }
 }
+
+#[cfg(feature = "verif_hooks")]
+pub(crate) fn verif_validate_proof_shape<F, C, S, const D: usize>(
+    stark: &S,
+    proof: &StarkProof<F, C, D>,
+    public_inputs: &[F],
+    config: &StarkConfig,
+) -> anyhow::Result<()>
+where
+    F: RichField + Extendable<D>,
+    C: GenericConfig<D, F = F>,
+    S: Stark<F, D>,
+{
+    validate_proof_shape::<F, C, S, D>(stark, proof, public_inputs, config, 0, 0)
+}
